@@ -226,7 +226,7 @@ Qed.
    U in front of P: 10 + 10 + 1 = 21 > 5; U behind P: 1 + 1 + 1 = 3 <= 5.
    Only the distance limit is installed (no quantities, windows, limits). *)
 Definition hd_opts : options :=
-  mkOptions false false false false false false false false false false false 0 1 0 1.
+  mkOptions false false false false false false false false false false false 0 1 0 1 false.
 Definition hd_stop : istop := mkIStop [] 0 [] None 10 [].
 Definition hd_veh : ivehicle :=
   mkIVehicle None [] 0 None None None (Some 5) None [] 0 true true.
@@ -236,7 +236,7 @@ Definition hd_dur : list (list Z) :=
   [[0; 0; 0; 0]; [0; 0; 0; 0]; [0; 0; 0; 0]; [0; 0; 0; 0]].
 Definition hd_inp : input :=
   mkInput [] [hd_stop; hd_stop] [hd_veh] [mkIUnit [0%nat] []; mkIUnit [1%nat] []]
-          hd_dur hd_dist 0 hd_opts.
+          hd_dur hd_dist 0 hd_opts [].
 Definition hd_dummy : state := mkState [] [] [] [] [] 0.
 Definition hd_s0 : state :=
   Eval vm_compute in match new_solution hd_inp with Some s => s | None => hd_dummy end.
